@@ -859,9 +859,10 @@ def run(ctx):
         "retarded/advanced/trans betweenness: modelled by property C03's model of the kernel _nsi_betweenness; the "
         "kernel model == published count over enumerated shortest paths (NetBetw.interregionalCount) is proved for every "
         "symmetric matrix (betweenness_kernel_eq_count, visibility_betweenness_kernel_eq_count; C03's kernel proof "
-        "nsiBetweenness_eq_def_full with its three hypotheses discharged); the reversal theorems are about the walk-count "
-        "writing betwSpec of the same definition; betwSpec == interregionalCount is compared on every sampled case "
-        "(driver), not proved",
+        "nsiBetweenness_eq_def_full with its three hypotheses discharged); the walk-count writing betwSpec of the same "
+        "definition is proved equal to the kernel model and to interregionalCount on every symmetric matrix (round 5c: "
+        "betweenness_kernel_eq_spec, betwSpec_eq_interregionalCount, through C02's Nsi.kernel_eq_nsiBetw_net), so the "
+        "reversal theorems hold for the kernel model itself (betweenness_kernel_reversal)",
         "binary32: rndF32 is proved round-to-nearest-even onto m*2^e (|m| < 2^24, e >= -149) and monotone; that the "
         "machine's float arithmetic is this function is compared (rnd32 correspondence: conversion, subtraction, "
         "division), overflow is outside the model"]
@@ -1183,7 +1184,7 @@ def run(ctx):
     # correspondence of model and definitions with the implementation - it is not a hypothesis of any theorem.
     ctx.correspond("retarded/advanced/trans betweenness: C03's kernel model (retBetw, advBetw, transBetw) "
                    "== pair-dependency definition betwSpec == count over enumerated shortest paths "
-                   "(NetBetw.interregionalCount, proved equal to the kernel model; not a hypothesis of a theorem) "
+                   "(NetBetw.interregionalCount; all three proved equal on symmetric matrices, not a hypothesis of a theorem) "
                    "== VisibilityGraph", breqs, bimpl)
     ctx.extra["betweenness_cases_compared"] = len(breqs)
     ctx.correspond("path_lengths(): breadth-first search Net.dist (C03's model) == specification pathLen "
